@@ -71,6 +71,11 @@ typedef struct {
   // How deeply nested in #include directives this file is
   int include_depth;
 
+  // Offsets into `contents` in front of which a backslash-newline was
+  // removed, in ascending order and terminated by -1 (or NULL). They
+  // count as line breaks when physical line numbers are computed.
+  int *splices;
+
   // Where #include_next in this file continues: the index after the
   // include path in which the file was found (0 if it was not found
   // through the search path)
